@@ -45,8 +45,11 @@ def _loader(case):
             obs1 = [k for k, w in zip(keys, case["wts"]) for _ in range(w)]
             ld = gcmpy.JointDegreeEmpirical({JN.JDS: obs0, JN.MOTIF_SIZES: list(case["sizes"])})
         else:
-            ld = gcmpy.JointDegreeManual({JN.JDD: dict(old), JN.MOTIF_SIZES: list(case["sizes"])})
+            ld = gcmpy.JointDegreeManual({JN.JDD: dict(old), JN.MOTIF_SIZES: list(pre.get("sizes0") or case["sizes"])})
         Oracle().run_seeded(pre.get("seed", 5), lambda: ld.sample_jds_from_jdd(pre.get("N", 3)))
+        if pre.get("sizes0"):
+            # the motif sizes of the object were different while the earlier sample was taken; now set through the property
+            ld.motif_sizes = list(case["sizes"])
         if pre["how"] == "setter":
             ld.jdd = dict(jdd)
         elif pre["how"] == "inplace":
@@ -195,6 +198,8 @@ def run(chk):
     for how in ("setter", "inplace", "empirical"):
         for wts0, wts1 in (([1, 2, 3], [3, 0, 1]), ([0, 1, 0], [2, 1, 1]), ([4, 1, 0], [0, 1, 4])):
             pre = {"keys": KS[1], "wts": wts0, "how": how, "N": 4}
+            if how != "empirical":
+                pre["sizes0"] = [2] if wts0[0] else [1]
             dists.append(dist_trace({"keys": KS[1], "wts": wts1, "sizes": [2], "N": 2, "scale": "norm", "pre": pre}))
             for N in (1, 3):
                 for tr, _w in leaves({"keys": KS[1], "wts": wts1, "sizes": [3], "N": N, "scale": "norm", "pre": pre}, max_leaves=40):
